@@ -46,7 +46,7 @@ impl GenCfg {
     }
 }
 
-pub const NAME_POOL: [&str; 14] = ["", "a", "Layer 1", "Layer 1", "bg", "ünï cödé", "日本語レイヤー", "🙂🙃", "tab\tnew\nline", "x", "Tag", "loop", "  spaced  ", "\u{0}nul"];
+pub const NAME_POOL: [&str; 18] = ["", "a", "Layer 1", "Layer 1", "bg", "ünï cödé", "日本語レイヤー", "🙂🙃", "tab\tnew\nline", "x", "Tag", "loop", "  spaced  ", "\u{0}nul", "Layer 1\u{0}", "\u{0}", "x\u{0}\u{0}", "Tag "];
 
 pub fn gen_name(rng: &mut Rng, extremes: bool) -> String {
     if extremes && rng.chance(1, 400) {
@@ -206,9 +206,11 @@ pub fn gen_tileset(rng: &mut Rng, sp: &Sprite, id: u32, cfg: &GenCfg) -> Tileset
     // tileset images taller than 65535 px)
     let big = cfg.big && rng.chance(1, 10);
     let (tw, th) = if big {
-        match rng.below(3) {
+        match rng.below(4) {
             0 => (rng.range(256, 300) as u16, 1u16),
             1 => (1u16, rng.range(256, 300) as u16),
+            // one tile has 65536 pixels or more (a product of two 16-bit fields)
+            2 => *rng.pick(&[(256u16, 256u16), (300, 250), (4096, 16), (16, 4097), (65_535, 2), (2, 40_000)]),
             _ => (rng.range(1, 2) as u16, 1u16),
         }
     } else {
@@ -218,6 +220,8 @@ pub fn gen_tileset(rng: &mut Rng, sp: &Sprite, id: u32, cfg: &GenCfg) -> Tileset
     let maxc = (6000 / area).clamp(1, 300);
     let count = if big && area <= 2 {
         *rng.pick(&[257u32, 300, 65_536, 65_537, 70_000])
+    } else if area >= 65_536 {
+        rng.range(2, 3) as u32
     } else {
         match rng.below(4) {
             0 => 1,
